@@ -507,6 +507,13 @@ func getRecordWrapper(numFound int, keys [][]byte, pointers []interface{}) (reco
 // PrefixScan returns records at the given prefix and limitNum
 // limitNum: limit the number of the scanned records return.
 func (t *BPTree) PrefixScan(prefix []byte, offsetNum int, limitNum int) (records Records, off int, err error) {
+	return t.prefixScan(prefix, offsetNum, limitNum, true)
+}
+
+// prefixScan is PrefixScan; skipDead tells whether deleted and expired records are
+// passed over (the RAM index modes) or returned to the caller (the sparse index
+// mode needs them: they shadow older records of the same key in sealed segments).
+func (t *BPTree) prefixScan(prefix []byte, offsetNum int, limitNum int, skipDead bool) (records Records, off int, err error) {
 	var (
 		n              *Node
 		scanFlag       bool
@@ -539,7 +546,7 @@ func (t *BPTree) PrefixScan(prefix []byte, offsetNum int, limitNum int) (records
 			}
 
 			// deleted and expired keys neither appear nor consume offsetNum / limitNum
-			if r, ok := n.pointers[i].(*Record); ok && r.H != nil && r.H.meta != nil &&
+			if r, ok := n.pointers[i].(*Record); skipDead && ok && r.H != nil && r.H.meta != nil &&
 				(r.H.meta.Flag == DataDeleteFlag || r.IsExpired()) {
 				continue
 			}
@@ -572,6 +579,11 @@ func (t *BPTree) PrefixScan(prefix []byte, offsetNum int, limitNum int) (records
 // PrefixSearchScan returns records at the given prefix, match regular expression and limitNum
 // limitNum: limit the number of the scanned records return.
 func (t *BPTree) PrefixSearchScan(prefix []byte, reg string, offsetNum int, limitNum int) (records Records, off int, err error) {
+	return t.prefixSearchScan(prefix, reg, offsetNum, limitNum, true)
+}
+
+// prefixSearchScan is PrefixSearchScan; see prefixScan for skipDead.
+func (t *BPTree) prefixSearchScan(prefix []byte, reg string, offsetNum int, limitNum int, skipDead bool) (records Records, off int, err error) {
 	var (
 		n              *Node
 		scanFlag       bool
@@ -609,7 +621,7 @@ func (t *BPTree) PrefixSearchScan(prefix []byte, reg string, offsetNum int, limi
 			}
 
 			// deleted and expired keys neither appear nor consume offsetNum / limitNum
-			if r, ok := n.pointers[i].(*Record); ok && r.H != nil && r.H.meta != nil &&
+			if r, ok := n.pointers[i].(*Record); skipDead && ok && r.H != nil && r.H.meta != nil &&
 				(r.H.meta.Flag == DataDeleteFlag || r.IsExpired()) {
 				continue
 			}
